@@ -20,7 +20,7 @@ func init() {
 			"R2: a node is handed back to the pool only on an edge where its reference count is tested to be zero (or <=0) and after the unlink routine was applied to it on every path. " +
 			"R3: Add pairs the list append with the index store, Remove pairs the unlink with the index delete. " +
 			"R4: Iterator() increments the reference count of the node it starts from and stores that node in the iterator; Close() calls the release routine exactly once and clears the pointer. " +
-			"R5: in the advance routine every new cursor value gets a reference (+1) on its incoming path and the old cursor loses one (-1) before, also between two consecutive steps. R6: payload is read only from live nodes (from the index, from a skip-removed routine, or tested not to carry the removed mark on every path); R7: cursor routines get only iterator cursors (as argument, or - routines of the iterator itself - from the receiver's cursor); R8: links are written only by the list primitives (node methods, methods of a dedicated list type, the unlink and the append routine); R9: the unlink routine reports nil or its own successor as new head (or, when it re-targets the head itself, writes its own successor and only where the node is known to be the head); R10: release drops its reference before testing the count. The private routines (unlink, append, release, advance) are resolved by what they do (neighbour rewiring, payload fill, reference give-back, loop that moves a reference), wherever they live - also written out in place in the API method. R11: the unlink routine overwrites every payload field of the node (key and value) with its zero value on every path that changes the node. R12: the pointer surgery of the unlink routine: what a neighbour receives is the node's own link of the same name (or nil where the node is known to have no neighbour there), read before the node's own links are cleared; a path that rewires one neighbour rewires the other one too.",
+			"R5: in the advance routine every new cursor value gets a reference (+1) on its incoming path and the old cursor loses one (-1) before, also between two consecutive steps. R6: payload is read only from live nodes (from the index, from a skip-removed routine, or tested not to carry the removed mark on every path); R7: cursor routines get only iterator cursors (as argument, or - routines of the iterator itself - from the receiver's cursor); R8: links are written only by the list primitives (node methods, methods of a dedicated list type, the unlink and the append routine); R9: the unlink routine reports nil or its own successor as new head (or, when it re-targets the head itself, writes its own successor and only where the node is known to be the head); R10: release drops its reference before testing the count. The private routines (unlink, append, release, advance) are resolved by what they do (neighbour rewiring, payload fill, reference give-back, loop that moves a reference), wherever they live - also written out in place in the API method. R11: the unlink routine overwrites every payload field of the node (key and value) with its zero value on every path that changes the node. R12: the pointer surgery of the unlink routine: what a neighbour receives is the node's own link of the same name (or nil where the node is known to have no neighbour there), read before the node's own links are cleared; a path that rewires one neighbour rewires the other one too. R13: the key and the value of an Add are stored only into the node the map's tail field designates (read before the field is re-targeted, possibly handed to the append routine at every call) - the end sentinel the iterators at the end are parked on becomes the new entry - never into a node reached through a link or taken from elsewhere. R14: where the unlink routine recognises the head by its nil back link, the head field is assigned only the new head that routine reported, a node allocated in place whose back link is never set, or a node whose back link is cut in the same step.",
 		NotDecided: "order and liveness of what an iterator returns over all histories (a value statement).",
 	})
 	register(&Check{
@@ -731,6 +731,7 @@ func mapRules(c *Ctx, pfx string) {
 	c.payloadAndCursorDiscipline(r, pfx+"6", pfx+"7")
 	c.linkCensus(r, pfx+"8")
 	c.unlinkSurgery(r, pfx+"12")
+	c.mapRulesV(r, pfx) // R13, R14 (v_lru_map.go)
 	// R9 the unlink routine reports as new head nil or its own successor; when it re-targets the head itself, it writes
 	// its own successor, and only where the unlinked node is known to be the head
 	unlinked := ssa.Value(nil)
